@@ -302,7 +302,16 @@ func (server *Server) getHeaderMetadataAttempt(ctx context.Context, name, purgeE
 	}
 	defer r.Close()
 
-	metadataBytes, err := DeserializeMetadataBytes(r, header.InternalCompression)
+	rawMetadata, err := io.ReadAll(r)
+	if err == nil && uint64(len(rawMetadata)) != header.MetadataLength {
+		err = io.ErrUnexpectedEOF // the bucket delivered fewer bytes than the header promises
+	}
+	if err != nil {
+		status = "error"
+		return true, HeaderV3{}, nil, "", err
+	}
+
+	metadataBytes, err := DeserializeMetadataBytes(bytes.NewReader(rawMetadata), header.InternalCompression)
 
 	if err != nil {
 		status = "error"
@@ -443,6 +452,9 @@ func (server *Server) getTileAttempt(ctx context.Context, httpHeaders map[string
 			}
 			defer r.Close()
 			b, err := io.ReadAll(r)
+			if err == nil && len(b) != int(entry.Length) {
+				err = io.ErrUnexpectedEOF // the bucket delivered fewer bytes than the directory entry promises
+			}
 			if err != nil {
 				status = "error"
 				if isCanceled(ctx) {
